@@ -32,10 +32,10 @@ MANDATORY = ['mixed-timing', 'post-merge', 'no-timing-at-all', 'metadata-without
              'roEdStart:absent', 'roEdStart:empty', 'item-note', 'exhaustive-timing-shapes']
 
 
-def check(ro, where='ro'):
+def check(ro, where='ro', base='roCreate'):
     fails = []
     root = ro.xml
-    rc = root.find('roCreate')
+    rc = root.find(base)
     vals = {}
     for name in access.RO_ACCESSORS:
         ok, v = call(ro, name, fails, PROP, 'RunningOrder')
@@ -57,6 +57,13 @@ def check(ro, where='ro'):
         mism('ro.completed', root.find('mosromgrmeta') is not None, vals['completed'])
     if access._text(rc, 'roEdStart') is None and vals.get('start_time', None) is not None:
         mism('ro.start_time', None, vals['start_time'])
+    if access._text(rc, 'roEdStart') is not None and 'start_time' in vals:
+        try:
+            want = access.x_time(access._text(rc, 'roEdStart').strip())
+        except ValueError:
+            want = Ellipsis          # a form this oracle does not read: not compared
+        if want is not Ellipsis and not access.tclose(vals['start_time'], want):
+            mism('ro.start_time', want, vals['start_time'])
     for k, (st, x) in enumerate(zip(stories, xs)):
         sv = {}
         for name in access.STORY_ACCESSORS:
@@ -163,6 +170,12 @@ def judge(ev):
     fails = check(ev.obs.ro)
     if ev.obs.msg is not None:
         fails += check_message_objects(ev.obs.msg)
+        if type(ev.obs.msg).__name__ == 'RunningOrderReplace':
+            # a RunningOrderReplace IS a RunningOrder (documented subclass): its own
+            # accessors read its own document, whose body is the roReplace element
+            for f in check(ev.obs.msg, base='roReplace'):
+                f.sig = f.sig.replace('C15|', 'C15|roReplace-object|', 1)
+                fails.append(f)
     return fails
 
 
